@@ -38,6 +38,9 @@ CLAIMED = {
  'C12': dict(design='4/C12', technique='constructive TLA+ definitions of the collection built-ins (JaqSem NativeColl, JaqLib) evaluated by TLC over enumerated inputs x operations; vectors replayed on the library',
    text='TLC enumerates 25 inputs with duplicates, ties, mixed types, empties and non-string keys x about 100 operations and key filters with 0-2 outputs; the expectation of each case is computed from definitions transcribed from the manual (stable sort, maximal runs, first of run, set-valued ties for min_by/max_by/bsearch) and replayed on the real code; documented equations are part of the operation set.',
    note='regex-based filters excluded; same trusted base as C01'),
+ 'C20': dict(design='4/C20', technique='TLA+ calendar specification (JaqTime): successor relation on civil dates model-checked by TLC against the closed forms over every day of a 400-year cycle (thorough: years -9999..9999); TLC-generated vectors for gmtime/mktime/todate/fromdate/strftime/strptime over edge Unix times, broken-down arrays and ISO texts replayed on the library; recorded runs on random Unix times validated by TLC (Trace_Time)',
+   text='Design: TLC walks every day of the range with the leap rule only and checks, in each state, the closed-form day-number conversions, year/week-day laws and the Unix-time split/join; so the specification of gmtime/mktime is itself model-checked. Code: every edge time x every conversion chain of the property is one TLC state carrying the prescribed array / text / error and is replayed on the real filters; ranges are three-valued (must / may / must-not) so that the library`s narrower limits in years +-9999 raise no alarm; random times go the other way (real run -> TLC accepts or rejects).',
+   note='local time zones and strftime directives beyond the modelled formats are outside; fractional times restricted to what a double holds exactly to the microsecond; Python datetime used as a second opinion only'),
  'C07': dict(design='4/C07', technique='TLA+ writer function (JaqCodec W/TextOf/NumText/EscT/EscB with layout options) evaluated by TLC over all short strings of a structural alphabet, all number representations and small trees x layout options; TLC vectors replayed on tojson/fromjson and on the CLI writer/reader; independent RFC 8259 text generator with Python json as second reader (exploration)',
    text='TLC enumerates every text string up to length 2 (quick) / 3 (thorough) over 31 structurally significant characters and bytes, every number representation and nested containers with arbitrary keys; each state carries the text the specified writer produces and the value reading it back must give; replayed on tojson, tojson|fromjson, object keys, byte strings, tostring, and through `jaq <layout options> .` piped to `jaq -c .` at process level for every indentation/compact/tab option. RFC 8259 conformance of the reader is explored with seeded random texts against an independent parser.',
    note='shortest-round-trip float printing is outside the specification (dyadic floats only); Python json trusted as independent reader; the RFC part is sampling, not TLC-decided'),
